@@ -33,6 +33,11 @@ pub mod model;
 mod roller;
 pub mod subscriber;
 
+/// Verification re-export (`--cfg excsn_fibre_verif`): the rolling-file writer,
+/// so a harness can drive it with a scripted clock.
+#[cfg(excsn_fibre_verif)]
+pub use roller::CustomRoller as VerifCustomRoller;
+
 #[cfg(debug_assertions)]
 pub mod debug_report;
 
